@@ -296,7 +296,7 @@ def check(tier: str) -> Result:
     tests = []
     for fn_, node_, path_, _v in _rx(vc_):
         for t_, pol_, pf_ in path_:
-            if not pol_ or pf_ is not cinit:
+            if not pol_:
                 continue
             g = _ge(t_)
             tests.append(txt(t_, 3, 70))
